@@ -460,6 +460,19 @@ func runSession(sc sessionCase) sessionResult {
 			res.results = append(res.results, "OK ()")
 			continue
 		}
+		if strings.HasPrefix(call, "send1 ") { // the single-request API
+			ms := msgsOfSx(parseSxString(strings.TrimPrefix(call, "send1 ")))
+			r, err := cl.Send(ms[0])
+			switch {
+			case err != nil:
+				res.results = append(res.results, "ERR")
+			case r == nil:
+				res.results = append(res.results, "NILRESULT")
+			default:
+				res.results = append(res.results, "OK "+sxs([]rscp.Message{*r}))
+			}
+			continue
+		}
 		ms := msgsOfSx(parseSxString(strings.TrimPrefix(call, "send ")))
 		rs, err := cl.SendMultiple(ms)
 		if err != nil {
